@@ -143,7 +143,7 @@ def run_job(cpath, job, outdir, tier='quick'):
     res['n'] = len(res['obligations']); res['n_ok'] = sum(1 for o in res['obligations'] if o['status'] == 'SUCCESS')
     res['failed'] = failed
     if any(o['status'] not in ('SUCCESS', 'FAILURE') for o in res['obligations']):
-        res['status'] = 'error'; res['detail'] = 'obligation with status other than SUCCESS/FAILURE'
+        res['status'] = 'error'; res['detail'] = 'obligation with status other than SUCCESS/FAILURE: ' + '; '.join(f"{o['status']} {o['name']} {o['desc'][:80]}" for o in res['obligations'] if o['status'] not in ('SUCCESS', 'FAILURE'))[:1500] + ' || MSG: ' + ' | '.join(msgs)[-800:] + ' || FAILED: ' + '; '.join(f"{o['name']} {o['desc'][:80]}" for o in failed)[:1500]
     elif failed: res['status'] = 'failed'
     elif not res['obligations']: res['status'] = 'error'; res['detail'] = 'zero obligations generated'
     elif job.get('probe', '1') != '0' and not res['probes_ok']:
